@@ -73,6 +73,31 @@ def consumers(model):
     return out
 
 
+class ConsumerTooSlow(Exception):
+    pass
+
+
+class watchdog:
+    """Generous wall-clock watchdog around one consumer call (SIGALRM in the shard's main thread); its firing
+    means 'skipped', never 'violated'."""
+    def __init__(self, seconds):
+        self.seconds = seconds
+
+    def __enter__(self):
+        import signal
+
+        def onalarm(signum, frame):
+            raise ConsumerTooSlow()
+        self.old = signal.signal(signal.SIGALRM, onalarm)
+        signal.alarm(self.seconds)
+
+    def __exit__(self, *a):
+        import signal
+        signal.alarm(0)
+        signal.signal(signal.SIGALRM, self.old)
+        return False
+
+
 def judge_model(acc, cls, where, model, payload, key):
     probs, (nf, nr, na) = wf.problems(model)
     acc.count("features-walked", nf)
@@ -86,8 +111,12 @@ def judge_model(acc, cls, where, model, payload, key):
     bad_dep = False
     for name, fn in consumers(model):
         try:
-            fn()
+            with watchdog(30):
+                fn()
             acc.count("traversals")
+        except ConsumerTooSlow:
+            # watchdog only: the dependency's CNF conversion is exponential for some formulas; not a verdict
+            acc.count("consumer-skipped-by-watchdog:" + name)
         except SHAPE_ERRORS as e:
             tags = []
             tb = e.__traceback__
@@ -157,7 +186,10 @@ def run_shard(desc, acc):
         # (i) library-written documents
         for fname, fmt in RT.FORMATS.items():
             W, R = fmt.rw()
-            cl = fmt.classes()
+            # (long XOR chains are left to the round-trip checks: the consumers run here include the dependency's
+            # CNF conversion, which is exponential in them)
+            cl = [c for c in fmt.classes() if c[0] not in ("ctc:chain7-20", "ctc:chain17-70", "ctc:wide11-15")]
+            cl.append(("ctc:and-or-chain", inject.inj_ctc_chain(("AND", "OR"), (7, 40))))
             for j in range(desc["n_lib"]):
                 r = rand.rng(seed, "c02lib", fname, i, j)
                 spec, tags = inject.apply(inject.base(r), r.sample(cl, r.randint(1, 4)), r)
@@ -210,6 +242,41 @@ def run_shard(desc, acc):
                     fh.write(text)
                 read_doc(acc, f"emitted|{reader}", reader, path, {"kind": "doc", "reader": reader, "ext": ext, "text": text},
                          S.digest(text))
+        # the library's own JSON format written by another producer (n-ary operand lists of any length)
+        clj = [c for c in RT.FORMATS["json"].classes() if c[0] not in ("ctc:chain7-20", "ctc:chain17-70", "ctc:wide11-15")]
+        clj.append(("ctc:chain16-70", inject.inj_ctc_chain(("AND", "OR"), (16, 70))))
+        for j in range(desc["n_emit"]):
+            r = rand.rng(seed, "c02json", i, j)
+            spec, tags = inject.apply(inject.base(r, 4, 12), r.sample(clj, r.randint(1, 4)) + ([clj[-1]] if j % 3 == 0 else []), r)
+            knobs = {k for k in ("nary", "key-order", "compact", "no-expr") if r.random() < 0.5} | ({"nary"} if j % 3 == 0 else set())
+            text, exp = TP.fm_json(spec, r, knobs)
+            idx += 1
+            path = os.path.join(work, f"j{idx}.json")
+            with open(path, "w", encoding="utf-8") as fh:
+                fh.write(text)
+            from flamapy.metamodels.fm_metamodel.transformations import JSONReader
+            try:
+                mj = JSONReader(path).transform()
+            except Exception:  # noqa: BLE001
+                acc.count("document-rejected-by-reader:JSONReader")
+                continue
+            payload = {"kind": "doc", "reader": "JSONReader", "ext": "json", "text": text}
+            # the names a constraint reports are the names written in the document's operand lists
+            bad = None
+            for c0, c1 in zip(exp["ctcs"], mj.ctcs):
+                try:
+                    got = set(c1.get_features())
+                except Exception as e:  # noqa: BLE001
+                    bad = f"get_features raises {type(e).__name__}"
+                    break
+                if got != S.ast_names(c0["ast"]):
+                    bad = f"constraint {c0['name']!r}: get_features gives {len(got)} names, the document writes {len(S.ast_names(c0['ast']))}: missing {sorted(S.ast_names(c0['ast']) - got)[:4]}"
+                    break
+            if bad or len(exp["ctcs"]) != len(mj.ctcs):
+                acc.fail("emitted|JSONReader", "features-are-the-names-written", "JSONReader", [], "names-differ",
+                         bad or "constraint count differs", payload, S.digest(text))
+                continue
+            judge_model(acc, "emitted|JSONReader", "JSONReader", mj, payload, S.digest(text))
         files = [(p, s) for p, s in corpus.fama_files() if (s or 0) <= desc["corpus_max"]]
         for j, (p, s) in enumerate(files):
             if j % n == i:
